@@ -50,6 +50,9 @@ TIERS = {
     "quick": dict(k_tri=4, k_cl=3, k_seg=3, k_band=3, k_drv=200, n_maps=8, depth=3, sweep_stride=24),
     "thorough": dict(k_tri=10, k_cl=5, k_seg=8, k_band=8, k_drv=2000, n_maps=None, depth=4, sweep_stride=1),
 }
+# lattice of the 15 non-default option combinations in the thorough tier (every element and
+# every link is still visited; fewer probes per element)
+LIGHT = dict(k_tri=2, k_cl=1, k_seg=2, k_band=2, k_drv=100)
 # the medium maps added to the quick tier (intersections, sidewalks, shoulders)
 QUICK_EXTRA = ("LGSVL/borregasave.xodr", "CARLA/Town02.xodr", "CARLA/Town01.xodr")
 N_VARIANT_MAPS = 6
@@ -1503,7 +1506,9 @@ def graph_item_rt(item):
     """graph_item + cached-vs-parsed round trip (same probe lattice)."""
     rel, opts, variant, tier, dense, rt = item
     P = dict(TIERS[tier])
-    if not dense:
+    if dense == "light":
+        P.update(LIGHT)
+    elif not dense:
         P.update(TIERS["quick"], depth=P["depth"])
     stem = pathlib.Path(rel).stem
     label = stem if variant is None else f"{stem}~del-{variant['tag']}"
@@ -1634,7 +1639,7 @@ def plan(tier, maps):
     else:
         for k, opts in enumerate(option_combos(tier)):
             for rel in maps:
-                items.append(("graph", rel, opts, None, tier, k == 0, k == 0 or rel in maps[:8]))
+                items.append(("graph", rel, opts, None, tier, True if k == 0 else "light", k == 0 or rel in maps[:8]))
         for rel in maps[:N_VARIANT_MAPS]:
             for index, tag in variant_targets(MAPS / rel):
                 items.append(("graph", rel, {}, {"index": index, "tag": tag}, tier, False, False))
